@@ -82,28 +82,24 @@ inductive RouteFault
   | order (c : Nat)        -- the operands of c arrive, but not in operand order
   | missing (c : Nat)      -- an operand of c was run two or more stages earlier: never forwarded
   | overwrite (c : Nat)    -- two or more operands of c come from the previous stage
-  | noTrainData (v : Nat)  -- v is trained in a stage that is not the last one and is not a node of the next stage
   deriving Repr, DecidableEq
 
-/-- the routing faults of one stage; `prev`, `cur`, `next` are the node lists (`sub`) of the neighbouring stages -/
-def stageFaults (g : SG) (prevSub curSub : List Nat) (nextSub : Option (List Nat)) (tr fw : List Nat) : List RouteFault :=
-  (fw.filterMap fun c =>
+/-- the routing faults of one stage; `prevSub`, `curSub` are the node lists (`sub`) of the previous and of this stage.
+    (Until fix D39 there was a fourth kind: a node trained in a stage that is not the last one and not a node of the next
+    stage - an early exit readout - got no training data; `_get_required_nodes` now links the nodes a stage trains too.) -/
+def stageFaults (g : SG) (prevSub curSub : List Nat) (fw : List Nat) : List RouteFault :=
+  fw.filterMap fun c =>
       match delivered g prevSub curSub fw c with
       | none => some (.overwrite c)
       | some l =>
         if l = g.parents c then none
-        else if l.length < (g.parents c).length then some (.missing c) else some (.order c))
-  ++ (tr.filterMap fun v =>
-      match nextSub with
-      | none => none
-      | some nx => if nx.contains v then none else some (.noTrainData v))
+        else if l.length < (g.parents c).length then some (.missing c) else some (.order c)
 
 def routeFaultsAux (g : SG) : List Nat → List (List Nat × List Nat) → List RouteFault
   | _, [] => []
   | prevSub, (tr, fw) :: rest =>
     let curSub := tr ++ fw
-    let nextSub := match rest with | [] => none | (tr', fw') :: _ => some (tr' ++ fw')
-    stageFaults g prevSub curSub nextSub tr fw ++ routeFaultsAux g curSub rest
+    stageFaults g prevSub curSub fw ++ routeFaultsAux g curSub rest
 
 /-- all routing faults of the staged fit of a model -/
 def routeFaults (g : SG) (nodes : List Nat) : List RouteFault :=
@@ -133,7 +129,9 @@ def requiredAux (g : SG) (nodes : List Nat) : List (List Nat) → List Nat → L
     let currs := lastSub.filter (fun n => !g.offline n || fitted.contains n)
     [getLinks g nodes currs nexts]
   | cur :: nxt :: rest, fitted =>
-    getLinks g nodes cur nxt :: requiredAux g nodes (nxt :: rest) (cur.filter g.offline ++ fitted)
+    -- (the nodes this stage trains are consumers too, also when the next stage does not run them: fix D39)
+    getLinks g nodes cur (nxt ++ cur.filter (fun n => g.offline n && !fitted.contains n))
+      :: requiredAux g nodes (nxt :: rest) (cur.filter g.offline ++ fitted)
 
 def required (g : SG) (nodes : List Nat) : List (List (Nat × List Nat)) :=
   requiredAux g nodes (offlineStages g nodes).1 []
